@@ -1,4 +1,5 @@
 """C02 - prime-field arithmetic realises Z/pZ with canonical results (DESIGN.md section 4, C02)."""
+import collections
 import random
 
 from vlib import core, gen_fp
@@ -35,8 +36,12 @@ def MC_RUNS(quick):
                                    "every double-length value below p*R", False),
             ("FpMonty", "FpMonty_w3", "W=3 (base 8), every odd prime modulus of 1..2 digits", False)]
     if not quick:
-        runs += [("FpMonty", "FpMonty_w3l3", "W=3 (base 8), 3-digit moduli (a spread of primes in 64..511), all residue pairs", False)]
+        runs += [("FpMonty", "FpMonty_w3l3", "W=3 (base 8), 3-digit moduli 67, 127, 257, all residue pairs (products, sums, differences, halves)", False)]
     return runs
+
+
+def _count_ops(ev, label, events):
+    ev.cov.setdefault("ops", {})[label] = dict(collections.Counter(e.get("op") for e in events))
 
 
 def run(tier, seed):
@@ -55,21 +60,29 @@ def run(tier, seed):
     conf = core.Conformance("C02", ev, wd)
     # 2. B1: tiny worlds (8-bit digits): every residue of five one-digit primes, multi-digit carries in two digits
     cases = gen_fp.gen_tiny(8, 1, 8, gen_fp.TINY8, rng, tier, exhaustive=True, bn_digits=4)
-    conf.run("w8p8", "w8p8", "fp", ["drv_fp.c"], cases, SPEC, nontrivial=nontrivial, min_per_shard=2000)
+    events, _ = conf.run("w8p8", "w8p8", "fp", ["drv_fp.c"], cases, SPEC, nontrivial=nontrivial, min_per_shard=2000)
+    _count_ops(ev, "w8p8", events)
     cases = gen_fp.gen_tiny(8, 2, 16, gen_fp.tiny16_primes(), rng, tier, exhaustive=False,
                             budget=0.5 if quick else 2.0, bn_digits=8)
-    conf.run("w8p16", "w8p16", "fp", ["drv_fp.c"], cases, SPEC, nontrivial=nontrivial, min_per_shard=2000)
+    events, _ = conf.run("w8p16", "w8p16", "fp", ["drv_fp.c"], cases, SPEC, nontrivial=nontrivial, min_per_shard=2000)
+    _count_ops(ev, "w8p16", events)
     # 3. B2: the shipped configuration - every parameter id the build accepts
     builds = [("std256", 256)]
     if not quick:
         builds += [("ed255", 255), ("b12-381", 381)]
-    ev.cov["primes"] = {}
+    ev.cov["primes"] = {"w8p8": ["%x" % p for p in gen_fp.TINY8], "w8p16": ["%x" % p for p in gen_fp.tiny16_primes()]}
+    ev.assumptions = ["fp_smb_binar and fp_smb_divst are driven in the 64-bit-digit builds only (8-bit-digit worlds: "
+                      "signed counters kept in dig_t; fp_smb_binar also needs >= 2 digits)",
+                      "reduction variants are driven on their domain: Montgomery t < p*R; fp_rdc_quick only for "
+                      "parameter ids that install a sparse form",
+                      "ARITH=easy (portable C back-end) only; assembly back-ends are not built"]
     for cfg, bits in builds:
         lst = listing(cfg)
         ev.cov["primes"][cfg] = ["%d:%x" % (i, p) for (i, p, s) in lst]
         fd = (bits + 63) // 64
         cases = gen_fp.gen_params(lst, 64, fd, bits, rng, tier, bn_digits=16)
-        conf.run(cfg, cfg, "fp", ["drv_fp.c"], cases, SPEC, nontrivial=nontrivial, min_per_shard=1000)
+        events, _ = conf.run(cfg, cfg, "fp", ["drv_fp.c"], cases, SPEC, nontrivial=nontrivial, min_per_shard=1000)
+        _count_ops(ev, cfg, events)
     return conf.finish()
 
 
